@@ -148,6 +148,11 @@ def natDiv (a b : Nat) : Except String Nat :=
 def natMod (a b : Nat) : Except String Nat :=
   if b == 0 then .error "ZeroDivisionError" else .ok (a % b)
 
+/-- Narrowing of an integer to a position/length of the model: a negative value is outside the model's
+domain (reported as such, never clipped). -/
+def natOfInt (i : Int) : Except String Nat :=
+  if i < 0 then .error "ModelDomain:negative" else .ok i.toNat
+
 /-! ### bounded iteration -/
 
 /-- `while c(s): s = b(s)` with an explicit bound on the number of iterations; when the bound is reached
